@@ -145,6 +145,10 @@ pub fn block_case(rec: &mut Rec, rng: &mut Rng, lines: &[Vec<u8>], descr: &str) 
             }
             Ok(Ok(())) => {
                 rec.count("line:ok");
+                // "a line with non-UTF-8 bytes is rejected" — wherever the bad bytes stand (name, value, custom header)
+                if std::str::from_utf8(l).is_err() {
+                    rec.oracle_fail("C15", "parse_header_line accepted a line that is not valid UTF-8", &log);
+                }
                 rec.op(&op, &format!("ok {}", show_headers(&h)));
             }
             Ok(Err(e)) => {
